@@ -59,8 +59,8 @@ func (propC05) Gen(seed uint64, tier string, idx int) *Plan {
 	failedStream := ""
 	if mode == "failed-stream" {
 		p.Stack.Passthrough = false
-		failedStream = pickS(r, []string{"cut-after-role", "all-malformed-then-done", "oversized-first-line", "comments-then-cut", "comments-then-text"})
-		if failedStream == "oversized-first-line" && p.Net.MaxSegment < 16384 {
+		failedStream = pickS(r, []string{"cut-after-role", "all-malformed-then-done", "oversized-first-line", "comments-then-cut", "comments-then-text", "done-then-oversized-line"})
+		if (failedStream == "oversized-first-line" || failedStream == "done-then-oversized-line") && p.Net.MaxSegment < 16384 {
 			p.Net.MaxSegment = 16384 // a megabyte in 7-byte segments is a hundred thousand events that decide nothing
 		}
 	}
@@ -118,6 +118,11 @@ func (propC05) Gen(seed uint64, tier string, idx int) *Plan {
 				ep.Default = Resp{Status: 200, CType: "text/event-stream", Framing: framing, Chunks: []Chunk{{Data: "data: {'id':'c1','choices':[{'delta':{'content':'Hello'}}]}\n\n"}, {Data: "data: {\"id\":\"c1\",\"choices\":[{\"delta\":{\"content\":\" world\"}\n\n"}, {Data: done}}}
 			case "oversized-first-line":
 				ep.Default = Resp{Status: 200, CType: pickS(r, []string{"text/event-stream", "text/plain"}), Framing: framing, Chunks: []Chunk{{Data: strings.Repeat("x", 1<<20+4096) + "\n"}, {Data: "the end\n"}}}
+			case "done-then-oversized-line":
+				// not a failure at all: a whole completion, [DONE], and then something the translator cannot
+				// read any more, while the backend still has a megabyte to get rid of. The message is complete;
+				// what must not happen is that the request never ends
+				ep.Default = Resp{Status: 200, CType: "text/event-stream", Framing: framing, Chunks: []Chunk{{Data: role}, {Data: text}, {Data: done}, {Data: strings.Repeat("y", 1<<20+8192) + "\n"}, {Data: strings.Repeat("z", 300<<10) + "\n"}}}
 			case "comments-then-cut":
 				cut.K = 2
 				ep.Default = Resp{Status: 200, CType: "text/event-stream", Framing: framing, Chunks: []Chunk{{Data: ": keep-alive\n\n"}, {Data: ": PROCESSING\n\n"}, {Data: text}, {Data: done}}, Fault: cut}
@@ -289,6 +294,8 @@ func (propC05) Check(r *Run) []Violation {
 			} else if c.Status < 400 && len(bytes.TrimSpace(c.Body)) == 0 {
 				add("C05/empty-error-body", "backend sent %q; client got status %d with an empty body", string(answered.BodyWrote), c.Status)
 			}
+		} else if mode == "failed-stream" && strings.HasSuffix(r.Plan.Sub, "/done-then-oversized-line") {
+			// (a complete answer: only termination is at stake, judged above and by the goroutine checks)
 		} else if mode == "failed-stream" && answered.Path == "/v1/chat/completions" {
 			// every attempt failed mid-answer, or answered 200 with nothing a completion could be made of,
 			// before Olla had sent anything: the caller must be told, in its dialect
